@@ -33,7 +33,7 @@ REQUIRED_COUNTERS = ["calls.raised", "mutants.confirmed", "retries.raised"]
 MIN_EVALS = 1500
 MIN_NONTRIVIAL = 800
 
-BY_CONSTRUCTION = {"foreign-signal", "orphan-signal", "foreign-signal-nested", "orphan-signal-nested", "orphan-member", "foreign-bundle", "foreign-instance-ref", "self-cycle", "two-cycle",
+BY_CONSTRUCTION = {"renamed-signal-clash", "renamed-port", "renamed-instance-clash", "foreign-signal", "orphan-signal", "foreign-signal-nested", "orphan-signal-nested", "orphan-member", "foreign-bundle", "foreign-instance-ref", "self-cycle", "two-cycle",
                    "unnamed-module", "name-clash", "displaced-signal", "ext-name-clash"}
 
 
@@ -128,6 +128,23 @@ def mutations(design, rng, limit_per_class):
                 add("foreign-signal-nested", site, mutated(["cat", ["slice", e, 0], ["cat", ["fsig", "__other__", "os1"]]] + ([["slice", e, [2, w, None]]] if w > 2 else [])))
                 if w >= 3:
                     add("orphan-signal-nested", site, mutated(["cat", ["slice", e, 0], ["orphan", 1], ["slice", e, [2, w, None]]]))
+        if pkind == "scalar" and e[0] == "sig":
+            # an attribute RE-NAMED (`sig.name = ...`) after it was added: to the name of another signal of the module (two nets under
+            # one exported name), an instance to another instance's name, a child's port to a name its parents do not connect
+            others_ = [s_[0] for s_ in m["sigs"] if s_[0] != e[1]] + [p_[0] for p_ in m["ports"] if p_[0] != e[1]]
+            if others_:
+                d = mutated(e)
+                d["rename"] = [[m["name"], e[1], others_[0]]]
+                add("renamed-signal-clash", site, d)
+            oinsts = [i2["name"] for i2 in m["insts"] if i2 is not inst]
+            if oinsts:
+                d = mutated(e)
+                d["rename"] = [[m["name"], inst["name"], oinsts[0]]]
+                add("renamed-instance-clash", site, d)
+            if inst["of"][0] == "mod" and inst.get("kind", "single") == "single":
+                d = mutated(e)
+                d["rename"] = [[inst["of"][1], port, "zzrenamedport"]]
+                add("renamed-port", site, d)
         if pkind == "scalar" and e[0] == "sig" and depth <= 1:
             # the signal is displaced AFTER it was connected: its name is re-used for a new, wider signal
             w0 = width_of(design, m, e)
@@ -314,6 +331,10 @@ def build_mutant(design):
         s2 = topm.add(h.Signal(width=2), name="zzc2")
         topm.add(x1()(a=s1, b=s1), name="zzx1")
         topm.add(x2()(a=s1, b=s2, c=s1), name="zzx2")
+    for mname, attr, newname in design.get("rename", []):
+        obj = built.objs.get((mname, attr))
+        if obj is not None:
+            obj.name = newname
     for mname, iname, port in design.get("probe", []):
         iobj = built.objs.get((mname, iname))
         if iobj is not None:
